@@ -109,10 +109,12 @@ class World:
             self.devs = []
             self.mdevs = []
             self.port = ports_mod.EchoPort()
-        elif kind == 'multi':
+        elif kind in ('multi', 'multi-gen'):
             self.devs = [Dev('a'), Dev('b')]
             self.mdevs = [MDev(), MDev()]
-            self.port = ports_mod.MultiPort(self.devs)
+            # ("ports" may be any iterable; a generator can be walked only once)
+            self.port = ports_mod.MultiPort(self.devs if kind == 'multi' else (d for d in self.devs))
+            self.kind = kind = 'multi'
         else:
             raise KeyError(kind)
         self.mclosed = False           # model: the port under test is closed
@@ -205,8 +207,8 @@ def msg_bytes(k):
 
 class Interp:
     def __init__(self, kind, autoreset):
-        self.kind = kind
         self.w = World(kind, autoreset)
+        self.kind = self.w.kind
         self.fails = []
         self.nt = False
         self._closed_with_queue = False
@@ -567,7 +569,7 @@ def make_machine(kind, autoreset):
     return PortMachine
 
 
-KINDS = [('device', False), ('device', True), ('echo', False), ('ioport', False), ('multi', False)]
+KINDS = [('device', False), ('device', True), ('echo', False), ('ioport', False), ('multi', False), ('multi-gen', False)]
 
 
 def machine_shard(rec, shard):
